@@ -6,6 +6,7 @@ mod cfg;
 mod touch;
 mod props;
 mod props2;
+mod props3;
 #[allow(dead_code, unused_imports)]
 #[path = "/repo/tests/custom_packet.rs"]
 mod custom;
@@ -14,6 +15,8 @@ mod gen;
 
 use json::J;
 use std::time::{Duration, Instant};
+
+static CASE_NO: std::sync::atomic::AtomicU64 = std::sync::atomic::AtomicU64::new(0);
 
 pub struct Rng(pub u64);
 impl Rng {
@@ -99,6 +102,11 @@ fn main() {
                     std::process::exit(2);
                 }
             };
+            std::thread::spawn(|| {
+                std::thread::sleep(Duration::from_secs(6));
+                println!("REPRODUCED: no result within 6 s: the call does not terminate");
+                std::process::exit(1);
+            });
             match props::check(&w) {
                 Ok(()) => {
                     println!("witness does not reproduce: property {} holds on this input", w.str("prop"));
@@ -134,6 +142,38 @@ fn main() {
             let mut rng = Rng::new(seed);
             let mut n: u64 = 0;
             let mut g = gen::Gen::new(&prop);
+            // watchdog: a case that does not return within 4 s is a termination failure of the real code; the generator is
+            // deterministic, so the hanging case is regenerated from the seed and reported as the witness
+            {
+                let prop = prop.clone();
+                std::thread::spawn(move || {
+                    let mut last = u64::MAX;
+                    let mut since = Instant::now();
+                    loop {
+                        std::thread::sleep(Duration::from_millis(500));
+                        let cur = CASE_NO.load(std::sync::atomic::Ordering::SeqCst);
+                        if cur != last {
+                            last = cur;
+                            since = Instant::now();
+                        } else if cur > 0 && since.elapsed() > Duration::from_secs(4) {
+                            let mut rng = Rng::new(seed);
+                            let mut g = gen::Gen::new(&prop);
+                            let mut w = J::Null;
+                            for _ in 0..cur {
+                                if let Some(x) = g.next(&mut rng) {
+                                    w = x;
+                                }
+                            }
+                            if let J::Obj(ref mut m) = w {
+                                m.insert("why".to_string(), J::Str("no result within 4 s: the call does not terminate".to_string()));
+                            }
+                            eprintln!("witness (hang) at case {}", cur);
+                            println!("{}", w.to_string());
+                            std::process::exit(1);
+                        }
+                    }
+                });
+            }
             loop {
                 if n % 64 == 0 && Instant::now() > deadline {
                     break;
@@ -143,6 +183,7 @@ fn main() {
                     None => break,
                 };
                 n += 1;
+                CASE_NO.store(n, std::sync::atomic::Ordering::SeqCst);
                 if exclude.iter().any(|p| covered(p, &w)) {
                     continue;
                 }
@@ -157,6 +198,101 @@ fn main() {
                 }
             }
             eprintln!("no witness in {} cases", n);
+            std::process::exit(0);
+        }
+        "bounded" => {
+            // bounded stand-in for code that is under an ASSUMED contract in the Verus run (never counted as proved):
+            //   vp-replay bounded nack <Cxx> <window>
+            // runs the real NACK builder over a stated finite family: every subset of a window of <window> consecutive
+            // sequence numbers placed at 0, 0x1234 and at the top of the 16-bit range, plus all pairs and triples with
+            // gaps 1..=34 at those bases, and checks property Cxx (C05 round trip, C06 size, C07 image, C17 frame).
+            let what = args.get(2).cloned().unwrap_or_default();
+            let prop = args.get(3).cloned().unwrap_or_default();
+            let window: u32 = args.get(4).and_then(|x| x.parse().ok()).unwrap_or(12);
+            if what == "fir" {
+                // every sequence of <= 4 add_ssrc calls over 3 SSRCs x 3 sequence numbers (7381 sequences): the builder
+                // (HashMap entry API, assumed contract in the Verus run) against the last-wins reference, property Cxx
+                let ssrcs = [1u32, 0x0100_0000, 0xffff_ffff];
+                let seqs = [0u8, 1, 255];
+                let mut n: u64 = 0;
+                for len in 0..=4usize {
+                    let total = 9usize.pow(len as u32);
+                    for code in 0..total {
+                        let mut c = code;
+                        let mut v = vec![];
+                        for _ in 0..len {
+                            let k = c % 9;
+                            c /= 9;
+                            v.push((ssrcs[k / 3], seqs[k % 3]));
+                        }
+                        n += 1;
+                        let cfg = cfg::Cfg::Fb { transport: false, sender: 7, media: 9, padding: 0, fci: cfg::Fci::Fir(v) };
+                        let w = J::obj(vec![("prop", J::s(&prop)), ("kind", J::s("cfg")), ("cfg", cfg.to_json())]);
+                        if let Err(e) = props::check(&w) {
+                            let mut w = w;
+                            if let J::Obj(ref mut m) = w {
+                                m.insert("why".to_string(), J::Str(e));
+                            }
+                            eprintln!("bounded fir: failing case after {} cases", n);
+                            println!("{}", w.to_string());
+                            std::process::exit(1);
+                        }
+                    }
+                }
+                eprintln!("bounded fir: {} cases, all hold", n);
+                println!("{{\"cases\":{}}}", n);
+                std::process::exit(0);
+            }
+            if what == "misc" {
+                match props3::misc() {
+                    Ok(n) => {
+                        eprintln!("bounded misc: {} cases, all hold", n);
+                        println!("{{\"cases\":{}}}", n);
+                        std::process::exit(0);
+                    }
+                    Err(e) => {
+                        let w = J::obj(vec![("prop", J::s(&prop)), ("kind", J::s("misc")), ("why", J::Str(e))]);
+                        println!("{}", w.to_string());
+                        std::process::exit(1);
+                    }
+                }
+            }
+            if what != "nack" {
+                eprintln!("unknown bounded family");
+                std::process::exit(2);
+            }
+            let mut n: u64 = 0;
+            let bases: [u32; 3] = [0, 0x1234, 65536 - window];
+            let mut run = |seqs: Vec<u16>, n: &mut u64| {
+                *n += 1;
+                let cfg = cfg::Cfg::Fb { transport: true, sender: 0x0102_0304, media: 0x0a0b_0c0d, padding: 0, fci: cfg::Fci::Nack(seqs) };
+                let w = J::obj(vec![("prop", J::s(&prop)), ("kind", J::s("cfg")), ("cfg", cfg.to_json())]);
+                if let Err(e) = props::check(&w) {
+                    let mut w = w;
+                    if let J::Obj(ref mut m) = w {
+                        m.insert("why".to_string(), J::Str(e));
+                    }
+                    eprintln!("bounded nack: failing case after {} cases", n);
+                    println!("{}", w.to_string());
+                    std::process::exit(1);
+                }
+            };
+            for base in bases {
+                for mask in 0u64..(1u64 << window) {
+                    let seqs: Vec<u16> = (0..window).filter(|k| mask >> k & 1 == 1).map(|k| (base + k) as u16).collect();
+                    run(seqs, &mut n);
+                }
+            }
+            for base in [0u32, 0x1234, 65535 - 70] {
+                for d1 in 1u32..=34 {
+                    run(vec![base as u16, (base + d1) as u16], &mut n);
+                    for d2 in 1u32..=34 {
+                        run(vec![base as u16, (base + d1) as u16, (base + d1 + d2) as u16], &mut n);
+                    }
+                }
+            }
+            eprintln!("bounded nack: {} cases, all hold", n);
+            println!("{{\"cases\":{},\"window\":{}}}", n, window);
             std::process::exit(0);
         }
         _ => {
